@@ -37,6 +37,7 @@ func runC18(c *report.Ctx) {
 	c.Clause("4 credentials")
 	checkCredentials(c)
 	checkUpdateCredentialsGuard(c)
+	checkCredentialsLayerStartsEmpty(c)
 	checkErrorTypeSanitiser(c) // /restore/error and /init/error pass the reported type through the sanitiser
 }
 
